@@ -647,6 +647,44 @@ def r09_15(run, model):
     run.floor("locals holding a translated child", n, 30)
 
 
+def r09_16(run, model):
+    run.rule("R09.16", "no statement of a block is left out when the block becomes a chain of lets: in the function of compile_match.rs that "
+                       "splits a block into its first statement and the rest, every arm of the match on the first statement that goes on "
+                       "with the rest also hands the statement (or the parts its pattern binds) to the translation - a statement judged "
+                       "to `only name a value` and skipped takes the calls inside it along")
+    CM = "crates/compiler/src/compile_match.rs"
+    n = 0
+    for f in model.fns(CM):
+        if f.body is None:
+            continue
+        heads = {}
+        for l in S.find(f.body, "Local"):
+            if l.get("init") is None or l["pat"]["k"] != "PIdent":
+                continue
+            t = S.norm_ws(run.facts.text(CM, l["init"]["sp"]))
+            mm = re.fullmatch(r"&(\w+)\[0\]", t)
+            if mm:
+                heads[l["pat"]["name"]] = mm.group(1)
+        if not heads:
+            continue
+        fns = {g.name for g in model.fns(CM) if re.fullmatch(r"(\w+::)*Expr", (g.node.get("ret") or "").replace(" ", ""))}
+        for m in S.find(f.body, "Match"):
+            sc = S.idents(m["scrut"]) if "scrut" in m else S.idents(m.get("expr", {}))
+            head = [h for h in heads if h in sc]
+            if not head:
+                continue
+            for i, arm in enumerate(m["arms"]):
+                n += 1
+                binds = set(S.pat_bindings(arm["pat"])) | {head[0]}
+                handed = [c for c in S.walk(arm["body"]) if c["k"] in ("Call", "MethodCall") and S.callee_name(c) in fns
+                          and any(S.idents(a) & binds for a in c["args"])]
+                pt = S.norm_ws(run.facts.text(CM, arm["pat"]["sp"]))
+                run.ob("R09.16", f"{f.name}|arm #{i + 1} ({pt[:28]}) translates the statement it takes", bool(handed), site(CM, arm["sp"]),
+                       f"translator calls given the statement or its parts: {len(handed)}",
+                       witness="mk(eff(1)).x; eff(2); prints only 2: the first statement, a field read of a call, was dropped with its calls")
+    run.floor("arms over the first statement of a block", n, 3)
+
+
 def r09_14(run, model):
     run.rule("R09.14", "an arm that leaves early has translated every sub-term first: in every arm of a rewriting pass, before each `return`, "
                        "each field of the matched node that carries sub-terms was handed to the traversal (or the path has established that it "
@@ -743,4 +781,5 @@ def run(run, model):
     run.try_rule(r09_13, model)
     run.try_rule(r09_14, model)
     run.try_rule(r09_15, model)
+    run.try_rule(r09_16, model)
     run.assume("children of a Lift IR variant are declared in source evaluation order (callee, arguments; lhs, rhs; receiver, arguments) - read and confirmed for ECall, EBinary, EDynCall")
